@@ -186,7 +186,7 @@ def run(prop, tier):
         spec = _json.load(open(os.path.join(core.ROOT, 'spec', 'layouts.json')))
         for fm in spec['formats']:
             tu = '#include <cstddef>\n#include "%s"\nstatic_assert(sizeof(%s) == %d, "sizeof");\nstatic_assert(offsetof(%s, payload) == %d, "offsetof payload");\nint vt_c03;\n' % (fm['header'], fm['type'], fm['len'], fm['type'], fm['len'])
-            p = subprocess.run(['g++', '-std=gnu++11', '-x', 'c++', '-fsyntax-only', '-w', '-Wno-invalid-offsetof', '-I' + os.path.join(core.REPO, 'include'), '-I' + os.path.join(core.REPO, 'src'), '-'], input=tu, stdout=subprocess.PIPE, stderr=subprocess.PIPE, text=True)
+            p = subprocess.run(['g++', '-std=gnu++11', '-x', 'c++', '-fsyntax-only', '-w', '-Wno-invalid-offsetof', *core.lib_flags(), '-'], input=tu, stdout=subprocess.PIPE, stderr=subprocess.PIPE, text=True)
             res.counters['cases'] = res.counters.get('cases', 0) + 1
             res.counters['transitions'] = res.counters.get('transitions', 0) + 1
             if p.returncode != 0:
